@@ -7,7 +7,6 @@ import (
 	"sort"
 	"strconv"
 	"strings"
-
 )
 
 // The property oracle, evaluated on the recorded event log of the real code, independently of Lean.
@@ -164,8 +163,9 @@ func oracle(r *rec, w *world, lines []string, script []string) string {
 						map[string]string{"api": "BackgroundWorker", "what": "accepted-after-shutdown", "trigger": trigger})
 				}
 			}
-			for _, s := range startsBefore(es, j) {
-				if s.name == e.b && s.id != e.a && liveAt(es, s.id, j) {
+			// a worker of that name that ran during the whole call (live when it began and when it returned)
+			for _, s := range startsBefore(es, max(k, 0)) {
+				if s.name == e.b && s.id != e.a && liveAt(es, s.id, max(k, 0)) && liveAt(es, s.id, j) {
 					fail("refused", fmt.Sprintf("BackgroundWorker(name %d) accepted while inst %d of that name was still running", e.b, s.id),
 						map[string]string{"api": "BackgroundWorker", "what": "running-name-accepted", "trigger": trigger})
 				}
@@ -173,7 +173,21 @@ func oracle(r *rec, w *world, lines []string, script []string) string {
 		case "timeout":
 			fail("crash", "a guarded wait expired (hang)", map[string]string{"api": "daemon", "what": "hang", "trigger": trigger})
 		case "panic":
-			fail("crash", "a daemon call panicked", map[string]string{"api": "daemon", "what": "panic", "trigger": trigger})
+			api, msg, what, t := "daemon", "", "panic", trigger
+			w.mu.Lock()
+			if len(w.panics) > 0 {
+				parts := strings.SplitN(w.panics[0], ": ", 2)
+				api, msg = parts[0], parts[1]
+			}
+			late := len(w.lateOps) > 0
+			w.mu.Unlock()
+			if strings.Contains(msg, "WaitGroup") {
+				what = "waitgroup-panic"
+			}
+			if api == "Run" && late && what == "waitgroup-panic" {
+				t = "worker-added-after-run-snapshot"
+			}
+			fail("crash", fmt.Sprintf("%s panicked: %s", api, msg), map[string]string{"api": api, "what": what, "trigger": t})
 		}
 	}
 	if len(failed) == 0 {
